@@ -153,7 +153,12 @@ func (vC01Sys) increaseActorsCounter()                                {}
 
 func vC01_noopCancel(pid *PID, err error)                  {}
 func vC01_treeNode(t *tree, id string) (*pidNode, bool)    { return nil, true }
-func vC01_init(pid *PID, ctx context.Context) error        { pid.setState(runningState, true); return nil }
+func vC01_init(pid *PID, ctx context.Context) error {
+	// PreStart of the new incarnation (runs inside init): no Receive of the actor may be in progress
+	vAssert(vC01_inHandler == 0, "PreStart of a restarted actor never runs while a Receive is in progress")
+	pid.setState(runningState, true)
+	return nil
+}
 func vC01_noop(pid *PID)                                   {}
 func vC01_attach(t *tree, parent, pid *PID) error          { return nil }
 func vC01_addWatcher(t *tree, pid, watcher *PID)           {}
